@@ -1,4 +1,5 @@
 import WV.Gen.Shared
+import WV.Gen.ApiSkel
 
 /-!
 # Obligations common to every property
@@ -14,5 +15,20 @@ open WV.Gen
 
 /-- **instances_do_not_share_state** -/
 theorem instances_do_not_share_state : Shared.sharedMutableState = [] := by decide
+
+/-- **eventual_queue_is_plain_fifo** — every model treats `EventualQueue` as "calls queued in a turn run, each once,
+    in the order queued, in the next turn; an exception in one of them is logged and does not affect the others".  That is
+    what this call skeleton says (one loop over the snapshot with the `try` INSIDE the loop, nothing put back, no
+    clock reads); the observers built on it hand each result to `eventually` once per waiting Deferred. -/
+theorem eventual_queue_is_plain_fifo :
+    ApiSkel.skeleton "EventualQueue._turn" = [("for/try", "f"), ("if", "_clock.callLater"), ("else/if", "d.callback")] ∧
+    ApiSkel.skeleton "EventualQueue.eventually" = [("if", "_clock.callLater")] ∧
+    ApiSkel.skeleton "EventualQueue.fire_eventually" = [("-", "Deferred"), ("-", "self.eventually")] ∧
+    ApiSkel.skeleton "OneShotObserver._maybe_call_observers" = [("for", "_eq.eventually")] ∧
+    ApiSkel.skeleton "OneShotObserver.fire" = [("-", "self._maybe_call_observers")] ∧
+    ApiSkel.skeleton "OneShotObserver.error" = [("-", "self._maybe_call_observers")] ∧
+    ApiSkel.skeleton "OneShotObserver.fire_if_not_fired" = [("if", "self.fire")] ∧
+    ApiSkel.skeleton "OneShotObserver.when_fired" = [("-", "Deferred"), ("-", "self._maybe_call_observers")] := by
+  decide
 
 end WV.Props.Common
